@@ -517,6 +517,21 @@ pub fn run(out: &mut Out, seed: u64, thorough: bool, replay: Option<&str>) {
                 net.out.violation("C01", "put-then-get-miss", format!("put_mutable of another value with the same seq returned Ok on node {writer} but get_mutable on node {reader} yielded {:?}", got2));
                 net.out.violation("C08", "acknowledged-value-not-served", format!("put_mutable (seq 3, second value) returned Ok on node {writer}: storing nodes acknowledged it and are alive, yet none of them serves that value to node {reader}, which gets {:?}", got2.iter().map(|r| r.chars().take(60).collect::<String>()).collect::<Vec<_>>()));
             }
+            // the ends of the sequence number range (another key): an acknowledged item is served whatever its seq
+            for (ks, seq) in [(11u64, i64::MIN), (12, i64::MAX), (13, 0), (14, -1)] {
+                let v = format!("seq {seq}").into_bytes();
+                let c = net.api(writer, put_mut_call(ks, seq, &v, None, None));
+                net.settle(20 * SEC, 10 * MS);
+                let ok = net.results(writer, c).first().map(|r| r.contains(":ok:")).unwrap_or(false);
+                let g = net.api(reader, format!("get_mut k={} salt=none seq=none", hex(key_from_seed(ks).verifying_key().as_bytes())));
+                net.settle(20 * SEC, 10 * MS);
+                let got = net.results(reader, g);
+                let mt = hex(MutableItem::new(&key_from_seed(ks), &v, seq, None).target().as_bytes());
+                if ok && !got.iter().any(|r| r.contains(&format!("seq={seq} v={}", hex(&v)))) && writer != reader && !net.holders(writer, &mt, reader).is_empty() {
+                    net.out.violation("C01", "put-then-get-miss", format!("put_mutable with seq {seq} returned Ok on node {writer} but get_mutable on node {reader} yielded {:?}", got));
+                    net.out.violation("C08", "acknowledged-value-not-served", format!("put_mutable with seq {seq} returned Ok on node {writer}: storing nodes acknowledged it and are alive, yet none of them serves the item to node {reader}"));
+                }
+            }
             let ih = Id::from_bytes(rng.id20()).expect("id");
             let c = net.api(writer, format!("announce ih={} port=7000", hex(ih.as_bytes())));
             net.settle(20 * SEC, 10 * MS);
